@@ -9,6 +9,8 @@ Check (C02_run_world : forall (key value : Type) (key_eqb : key -> key -> bool) 
   now _ _ (run _ _ key_eqb eval connected w history) = fold_left (fun w0 c => update _ _ key_eqb w0 (fst c) (snd c)) history w).
 Check (C02_dependency_complete_ir : forall E c c' ds, analyze_code_property_dependency E c = Ok (c', ds) ->
   Forall (block_covered E c' (c_nobs c) (length (c_locals c))) (c_blocks c')).
+Check (C02_unobservable_reads_are_diagnosed : forall E c c' ds, analyze_code_property_dependency E c = Ok (c', ds) ->
+  (In PUnobservable ds <-> exists b st, In b (c_blocks c) /\ In st (b_stmts b) /\ unobservable_read E st = true)).
 Check (C02_stale_without_coverage_refuted : exists (eval : (nat -> nat) -> nat) (connected : (nat -> nat) -> list nat) (w : nat -> nat) (h : list (nat * nat)),
     target _ _ (run nat nat Nat.eqb eval connected w h) <> eval (now _ _ (run nat nat Nat.eqb eval connected w h))).
 Check (C02_ir_checker_sound : forall E c, code_covered_b E c = true <->
